@@ -64,7 +64,11 @@ def run_case(ctx, i, rng):
                 J[0] = 7.0
         for X, kk in ((A, k), (B, k), (PT, kp)):
             new, _ = gen.pose(rng, kk, maxexp)
-            X[:] = M.fl(M.mkpose(kk, new))
+            vals_new = np.array(M.fl(M.mkpose(kk, new)))
+            if rng.random() < 0.5:
+                X[:] = vals_new
+            else:
+                np.copyto(np.asarray(X), vals_new)  # a write that does not go through the pose object's own __setitem__
         ctx.count("class:after_inplace_modification")
         all_methods(ctx, k, kp, A, B, PT, {"after_inplace_modification": True})
     if nontriv:
